@@ -42,6 +42,14 @@ sensitivity)
         done
         (cd "$REPO" && git reset -q --hard HEAD && git clean -fdq -- src tests build.rs)
     done
+    for m in mutants/*.diff; do
+        c=$(basename "$m" | cut -d- -f1)
+        (cd "$REPO" && git apply "$VERIF_DIR/$m") || { echo "$m: patch does not apply"; fail=1; continue; }
+        ./v check "$c" quick >/dev/null 2>&1; rc=$?
+        if [ $rc -eq 1 ]; then echo "$(basename "$m"): caught by $c"; else echo "$(basename "$m"): MISSED by $c (rc=$rc)"; fail=1; fi
+        (cd "$REPO" && git reset -q --hard HEAD)
+    done
+    ./v setup >/dev/null
     exit $fail ;;
 *) echo "usage: selftest.sh determinism|sensitivity"; exit 2 ;;
 esac
